@@ -130,6 +130,9 @@ def main():
     supplements = []
     for sup, fut in sup_fut:
         r = fut.result()
+        # a bounded supplement that produced no verdict (its driver crashed - e.g. the changed code no longer imports - or ran out of time) decided nothing:
+        # that is UNDECIDED, never silence
+        if r.get('note') and 'runs' not in r: undecided.append(f"supplement {sup['name']}: {r['note']}" + (': ' + r['stderr'].strip().splitlines()[-1][:160] if r.get('stderr', '').strip() else ''))
         supplements.append({'name': sup['name'], 'bounded': True, 'bound': sup['bound'], 'driver': sup['driver'], 'args': sup.get('args', {}), 'result': {kx: vx for kx, vx in r.items() if kx != 'failures'}, 'failures': r.get('failures', [])})
     # ---- verdicts
     known = [kf for kf in load_known() if kf.get('property') == pid and kf.get('status') == 'open']
